@@ -706,92 +706,83 @@ theorem redirect_example :
 /-! ### drain -/
 
 open AsyncsshModel.StreamProc in
-/-- an event that does not wake a waiting `drain()` leaves it with a reason to wait (repaired code) -/
+/-- an event that does not wake a waiting `drain()` leaves it with a reason to wait (code as it is) -/
 theorem dstep_not_woken_still_blocked (s : DSt) (e : DEv) (hb : shouldBlockDrain s = true)
-    (hw : (dstepW true s e).2 = false) : shouldBlockDrain (dstepW true s e).1 = true := by
-  obtain ⟨wp, cl, ex, rd⟩ := s
+    (hw : (dstepW {} s e).2 = false) : shouldBlockDrain (dstepW {} s e).1 = true := by
+  obtain ⟨wp, cl, ex, rd, dc⟩ := s
   cases e <;> cases wp <;> cases cl <;> cases rd <;> simp_all [dstepW, shouldBlockDrain]
 
 open AsyncsshModel.StreamProc in
 /-- an event that wakes a waiting `drain()` leaves nothing to wait for -/
-theorem dstep_woken_unblocked (fixed : Bool) (s : DSt) (e : DEv) (hw : (dstepW fixed s e).2 = true) :
-    shouldBlockDrain (dstepW fixed s e).1 = false := by
-  obtain ⟨wp, cl, ex, rd⟩ := s
-  cases fixed <;> cases e <;> cases wp <;> cases cl <;> cases rd <;> simp_all [dstepW, shouldBlockDrain]
+theorem dstep_woken_unblocked (cfg : DCfg) (s : DSt) (e : DEv) (hw : (dstepW cfg s e).2 = true) :
+    shouldBlockDrain (dstepW cfg s e).1 = false := by
+  obtain ⟨wp, cl, ex, rd, dc⟩ := s
+  obtain ⟨c1, c2, c3⟩ := cfg
+  cases c1 <;> cases c2 <;> cases e <;> cases wp <;> cases cl <;> cases rd <;> simp_all [dstepW, shouldBlockDrain]
 
 open AsyncsshModel.StreamProc in
-theorem drainFinish_spec (s : DSt) (hb : shouldBlockDrain s = false) :
-    match drainFinish s with
-    | .returned => s.writePaused = false ∧ s.reader = false ∧ (s.connLost = true → s.exc = false)
-    | .raisedExc => s.connLost = true ∧ s.exc = true
-    | .brokenPipe => s.connLost = true ∧ s.exc = false ∧ s.writePaused = true
-    | .blocked => False := by
-  obtain ⟨wp, cl, ex, rd⟩ := s
-  cases wp <;> cases cl <;> cases ex <;> cases rd <;> simp_all [drainFinish, shouldBlockDrain]
-
-open AsyncsshModel.StreamProc in
-/-- what a `drain()` call may conclude from its outcome -/
-def DrainPost (r : DrainRes) (s : DSt) : Prop :=
+/-- what a `drain()` call may conclude from its outcome (`waited`: the call had to wait) -/
+def DrainPost (waited : Bool) (r : DrainRes) (s : DSt) : Prop :=
   match r with
-  | .returned => s.writePaused = false ∧ s.reader = false ∧ (s.connLost = true → s.exc = false)
+  | .returned => s.writePaused = false ∧ s.reader = false ∧ (s.connLost = true → s.exc = false) ∧
+      (waited = true → s.connLost = false → s.discarded = false)
   | .raisedExc => s.connLost = true ∧ s.exc = true
-  | .brokenPipe => s.connLost = true ∧ s.exc = false ∧ s.writePaused = true
+  | .brokenPipe => (s.connLost = true ∧ s.exc = false ∧ s.writePaused = true) ∨
+      (s.connLost = false ∧ waited = true ∧ s.discarded = true)
   | .blocked => shouldBlockDrain s = true
 
 open AsyncsshModel.StreamProc in
+theorem drainFinish_spec (waited : Bool) (s : DSt) (hb : shouldBlockDrain s = false) :
+    DrainPost waited (drainFinish {} waited s) s ∧ drainFinish {} waited s ≠ .blocked := by
+  obtain ⟨wp, cl, ex, rd, dc⟩ := s
+  cases waited <;> cases wp <;> cases cl <;> cases ex <;> cases rd <;> cases dc <;>
+    simp_all [drainFinish, shouldBlockDrain, DrainPost]
+
+open AsyncsshModel.StreamProc in
 theorem drainWait_contract (evs : List DEv) (s : DSt) (hb : shouldBlockDrain s = true) :
-    DrainPost (drainWait true s evs).1 (drainWait true s evs).2 := by
+    DrainPost true (drainWait {} s evs).1 (drainWait {} s evs).2 := by
   induction evs generalizing s with
   | nil => simpa [drainWait, DrainPost] using hb
   | cons e rest ih =>
     unfold drainWait
     simp only
     split
-    · next hw =>
-      have := drainFinish_spec _ (dstep_woken_unblocked true s e hw)
-      revert this
-      unfold DrainPost
-      cases drainFinish (dstepW true s e).1 <;> simp
-    · next hw =>
-      exact ih _ (dstep_not_woken_still_blocked s e hb (by simpa using hw))
+    · next hw => exact (drainFinish_spec true _ (dstep_woken_unblocked {} s e hw)).1
+    · next hw => exact ih _ (dstep_not_woken_still_blocked s e hb (by simpa using hw))
 
 open AsyncsshModel.StreamProc in
 /-- **drain contract** (process sessions, the override `SSHProcess._should_block_drain` included): `drain()` returns
-    normally only when writing is not paused and no redirect source is still feeding the stream (and, if the channel
-    is gone, it went cleanly with nothing held back); if the channel is gone with an exception, or while writing was
-    still paused, it raises; it keeps waiting exactly while writing is paused with the channel still there, or a
-    redirect source is registered. -/
-theorem drain_contract (evs : List DEv) (s : DSt) : DrainPost (drain s evs).1 (drain s evs).2 := by
+    normally only when writing is not paused and no redirect source is still feeding the stream — and, if the call had
+    to wait, only if nothing it waited for was thrown away by a peer closing the channel (and, if the channel is
+    gone, it went cleanly with nothing held back); if the channel is gone with an exception, or while writing was
+    still paused, or the peer closed it and discarded what the call waited for, it raises; it keeps waiting exactly
+    while writing is paused with the channel still there, or a redirect source is registered. -/
+theorem drain_contract (evs : List DEv) (s : DSt) :
+    DrainPost (shouldBlockDrain s) (drain s evs).1 (drain s evs).2 := by
   unfold drain drainW
   split
-  · next hb => exact drainWait_contract evs s hb
+  · next hb => rw [hb]; exact drainWait_contract evs s hb
   · next hb =>
-    have := drainFinish_spec s (by simpa using hb)
-    revert this
-    unfold DrainPost
-    cases drainFinish s <;> simp
+    have hb' : shouldBlockDrain s = false := by simpa using hb
+    rw [hb']
+    exact (drainFinish_spec false s hb').1
 
 open AsyncsshModel.StreamProc in
 theorem drainWait_lost_not_blocked (evs : List DEv) (s : DSt) (e : Bool) (h : DEv.lost e ∈ evs) :
-    (drainWait true s evs).1 ≠ .blocked := by
+    (drainWait {} s evs).1 ≠ .blocked := by
   induction evs generalizing s with
   | nil => simp at h
   | cons a rest ih =>
     unfold drainWait
     simp only
     split
-    · next hw =>
-      have := drainFinish_spec _ (dstep_woken_unblocked true s a hw)
-      intro hc
-      have hc' : drainFinish (dstepW true s a).1 = .blocked := hc
-      rw [hc'] at this
-      exact this
+    · next hw => exact (drainFinish_spec true _ (dstep_woken_unblocked {} s a hw)).2
     · next hw =>
       simp only [List.mem_cons] at h
       rcases h with rfl | h
       · exfalso
         apply hw
-        obtain ⟨wp, cl, ex, rd⟩ := s
+        obtain ⟨wp, cl, ex, rd, dc⟩ := s
         simp [dstepW, shouldBlockDrain]
       · exact ih _ h
 
@@ -804,12 +795,33 @@ theorem drain_never_outlives_channel (evs : List DEv) (s : DSt) (e : Bool) (h : 
   unfold drain drainW
   split
   · exact drainWait_lost_not_blocked evs s e h
-  · next hb =>
-    have := drainFinish_spec s (by simpa using hb)
-    intro hc
-    have hc' : drainFinish s = .blocked := hc
-    rw [hc'] at this
-    exact this
+  · next hb => exact (drainFinish_spec false s (by simpa using hb)).2
+
+open AsyncsshModel.StreamProc in
+/-- **the peer closes the channel under a writer that waits for its data to go out**: the wait ends at the CLOSE —
+    also when `connection_lost` itself has to wait for the application to read what it has received — and the call
+    FAILS: what it was waiting for was thrown away, more cannot be written. -/
+theorem drain_fails_when_peer_closes_on_paused_writer (s : DSt) (u : Bool) (rest : List DEv)
+    (hp : s.writePaused = true) (hl : s.connLost = false) (hr : s.reader = false) :
+    (drain s (.peerClose u :: rest)).1 = .brokenPipe := by
+  obtain ⟨wp, cl, ex, rd, dc⟩ := s
+  simp only at hp hl hr
+  subst hp hl hr
+  cases u <;> cases dc <;> simp [drain, drainW, drainWait, dstepW, shouldBlockDrain, drainFinish]
+
+open AsyncsshModel.StreamProc in
+/-- a drain that waited and was resumed because its data WAS sent returns normally — also after `write_eof()` or when
+    the stream was fed by a redirect source that has ended (EOF sent): the channel being closed for further writes
+    is no failure -/
+theorem drain_returns_when_data_was_sent (s : DSt) (rest : List DEv)
+    (hl : s.connLost = false) (hd : s.discarded = false) :
+    (s.writePaused = true → s.reader = false → (drain s (.resumeWriting :: rest)).1 = .returned) ∧
+    (s.writePaused = false → s.reader = true → (drain s (.readerDone :: rest)).1 = .returned) := by
+  obtain ⟨wp, cl, ex, rd, dc⟩ := s
+  simp only at hl hd
+  subst hl hd
+  constructor <;> intro h1 h2 <;> simp only at h1 h2 <;> subst h1 h2 <;>
+    simp [drain, drainW, drainWait, dstepW, shouldBlockDrain, drainFinish]
 
 open AsyncsshModel.StreamProc in
 /-- **Witness of finding A-C19-1 (repaired).**  A redirect source is registered for the stream and `drain()` waits
@@ -825,6 +837,19 @@ theorem drain_hangs_after_channel_loss_prefix :
   refine ⟨?_, ?_, ?_, ?_, ?_⟩ <;> decide
 
 open AsyncsshModel.StreamProc in
+/-- **Witnesses of the two regressions around the peer's CLOSE.**  A writer is paused and waits in `drain()`; the
+    peer's CLOSE arrives while received data is still queued (so `connection_lost` is not yet due).
+    Before C09's repair (repo 352f310) nothing resumed the session: the call kept waiting although its data was
+    gone (`drainNoResumeOnClose`).  With that repair alone the call was woken by `resume_writing()` and returned
+    NORMALLY with the data discarded (`drainNoDiscardTest`).  The code as it is fails with BrokenPipeError. -/
+theorem drain_after_peer_close_witnesses :
+    (drainNoResumeOnClose { writePaused := true } [.peerClose true]).1 = .blocked ∧
+    (drainNoDiscardTest { writePaused := true } [.peerClose true]).1 = .returned ∧
+    (drainNoDiscardTest { writePaused := true } [.peerClose true]).2.discarded = true ∧
+    (drain { writePaused := true } [.peerClose true]).1 = .brokenPipe := by
+  refine ⟨?_, ?_, ?_, ?_⟩ <;> decide
+
+open AsyncsshModel.StreamProc in
 theorem drain_contract_example :
     (drain { writePaused := true } [.resumeWriting]).1 = .returned ∧
     (drain { writePaused := true } [.lost false]).1 = .brokenPipe ∧
@@ -832,8 +857,10 @@ theorem drain_contract_example :
     (drain { writePaused := true } []).1 = .blocked ∧
     (drain {} [.setReader]).1 = .returned ∧
     (drain { reader := true } [.pauseWriting, .resumeWriting]).1 = .blocked ∧
-    (drain { reader := true } [.pauseWriting, .readerDone, .resumeWriting]).1 = .returned := by
-  refine ⟨?_, ?_, ?_, ?_, ?_, ?_, ?_⟩ <;> decide
+    (drain { reader := true } [.pauseWriting, .readerDone, .resumeWriting]).1 = .returned ∧
+    (drain { reader := true } [.peerClose true, .readerDone]).1 = .brokenPipe ∧
+    (drain { discarded := true } []).1 = .returned := by
+  refine ⟨?_, ?_, ?_, ?_, ?_, ?_, ?_, ?_, ?_⟩ <;> decide
 
 /-! ### redirect after EOF, `recv_eof=False` -/
 
@@ -1016,16 +1043,29 @@ theorem readInner_split_matches_code (b : Bytes) (rest : List Item) (bl : Int) (
     have h1 : ¬ (0 < n ∧ n < (b.length : Int)) := by omega
     simp [readInner, h0, h1]
 
-/-- `drain` keeps waiting exactly under the code's `_should_block_drain` — the override every process session runs
-    (`SSHProcess._should_block_drain`, asyncssh/process.py), which refers to the base class's test -/
+/-- `drain` keeps waiting exactly under the code's `_should_block_drain` — the override every process session runs -/
 theorem drain_block_matches_code (s : StreamProc.DSt) :
     StreamProc.shouldBlockDrain s = true ↔ Gen.C19.procShouldBlockDrainCode s.reader s.writePaused s.connLost := by
   unfold StreamProc.shouldBlockDrain Gen.C19.procShouldBlockDrainCode Gen.C19.shouldBlockDrainCode
   cases s.reader <;> cases s.writePaused <;> cases s.connLost <;> simp
 
-/-- the model's `connection_lost` wakes the drain waiters after the readers are gone, as the code does (repair of
-    A-C19-1) -/
 theorem drain_wakeup_matches_code : Gen.C19.connLostUnblocksAfterReadersCleared = true := by decide
+
+/-- the test `drain` makes after its loop when the connection is not lost is the model's: the call had to wait
+    (`blocked`, which the code sets exactly in the body of its waiting loop) and the channel reports that unsent data
+    was discarded — whatever `is_closing()` says (it is also true after `write_eof()`), with the channel present -/
+theorem drain_fail_test_matches_code (blocked closing : Bool) (s : StreamProc.DSt) :
+    Gen.C19.drainBlockedFlagTracksWaiting = true ∧
+    ((blocked && s.discarded) = true ↔ Gen.C19.drainFailAfterWaitCode blocked true closing s.discarded) := by
+  refine ⟨by decide, ?_⟩
+  unfold Gen.C19.drainFailAfterWaitCode
+  cases blocked <;> cases closing <;> cases s.discarded <;> simp
+
+/-- the channel side of the `peerClose` event is the code's: `_process_close` resumes a session paused for writing
+    after `_close_send()` (C09's repair), and `_close_send()` records that it threw unsent data away -/
+theorem peer_close_matches_code :
+    Gen.C19.processCloseResumesWriting = true ∧ Gen.C19.closeSendRecordsDiscard = true := by
+  constructor <;> decide
 
 open AsyncsshModel.StreamProc in
 /-- the EOF test of the model's `onRedirect` is the one `feed_recv_buf` makes -/
